@@ -519,9 +519,14 @@ FRONT_SOUP = [
 ]
 
 
-def random_config(rng, allow_modes=True):
+def random_config(rng, allow_modes=True, suppress=False):
     """A valid MdParserConfig keyword dict (linkify / gfm_only excluded: linkify-it-py is not importable here)."""
     kw = {}
+    if suppress and rng.random() < 0.3:
+        from myst_parser.warnings_ import MystWarnings
+
+        tags = ["myst." + w.value for w in MystWarnings]
+        kw["suppress_warnings"] = rng.choice([["myst"], ["myst.*"], tags, rng.sample(tags, rng.randint(1, 8)), rng.sample(tags, rng.randint(8, len(tags))), ["docutils", "ref.*", "misc.highlighting_failure"] + rng.sample(tags, 3)])
     kw["enable_extensions"] = sorted(e for e in ALL_EXT if rng.random() < 0.5)
     if rng.random() < 0.15:
         kw["enable_extensions"] = list(ALL_EXT)
